@@ -74,7 +74,11 @@ func runOne(id, tier string, fn props.CheckFunc) (code int) {
 			code = 2
 		}
 	}()
+	if os.Getenv("GCV_FORCEINLINE") != "" { // debugging aid: decide in the inlined view only
+		core.InlineView = true
+	}
 	fn(r)
+	secondView(r, id, tier, fn)
 	if tier == "thorough" && os.Getenv("GCV_VARIANT") == "" {
 		r.Variants, r.VariantSummary = selfTest(id)
 		fmt.Println("thorough:", r.VariantSummary)
@@ -88,4 +92,83 @@ func runOne(id, tier string, fn props.CheckFunc) (code int) {
 		}
 	}
 	return r.Finish()
+}
+
+// secondView: when the first pass leaves violations, the property is decided once more on the same program
+// with single-caller helper functions inlined into their callers (core.InlineView).  Both are the same
+// program; a rule that is anchored in one function and does not find a statement there because it sits in a
+// helper is satisfied when it finds it in the inlined view.  A violation stands unless the same obligation
+// (rule and key) is discharged in the second view; obligations that exist only there are ignored.
+func secondView(r *core.Run, id, tier string, fn props.CheckFunc) {
+	nviol := 0
+	for _, o := range r.Obs {
+		if o.Status == "violated" {
+			nviol++
+		}
+	}
+	if nviol == 0 || os.Getenv("GCV_NOINLINE") != "" {
+		return
+	}
+	r2 := core.NewRun(id, tier)
+	func() {
+		defer func() {
+			if e := recover(); e != nil {
+				r2 = nil
+			}
+		}()
+		core.InlineView = true
+		defer func() { core.InlineView = false }()
+		fn(r2)
+	}()
+	if r2 == nil {
+		return
+	}
+	ok2 := map[string]string{}
+	bad2 := map[string]bool{}
+	for _, o := range r2.Obs {
+		k := o.Rule + "|" + o.Key
+		if o.Status == "ok" {
+			ok2[k] = o.Detail
+		} else if o.Status == "violated" {
+			bad2[k] = true
+		}
+	}
+	bad1 := map[string]bool{}
+	for _, o := range r.Obs {
+		if o.Status == "violated" {
+			bad1[o.Rule+"|"+o.Key] = true
+		}
+	}
+	seen2 := map[string]bool{}
+	okRule2 := map[string]int{}
+	newBad2 := map[string]bool{} // rules that have a violation in the second view which the first did not have
+	for _, o := range r2.Obs {
+		k := o.Rule + "|" + o.Key
+		seen2[k] = true
+		if o.Status == "ok" {
+			okRule2[o.Rule]++
+		}
+		if o.Status == "violated" && !bad1[k] && !core.IsKnownFinding(id, o.Rule, o.Key) {
+			newBad2[o.Rule] = true
+		}
+	}
+	for i := range r.Obs {
+		o := &r.Obs[i]
+		k := o.Rule + "|" + o.Key
+		if o.Status != "violated" || bad2[k] {
+			continue
+		}
+		if d, ok := ok2[k]; ok {
+			o.Status = "ok"
+			o.Detail = "holds with helper functions inlined into their caller: " + d
+			continue
+		}
+		// the rule gave up early in the first view ("X not found") under a key that does not exist when it
+		// runs to completion: accepted when the whole rule is clean in the second view
+		if !seen2[k] && !newBad2[o.Rule] && okRule2[o.Rule] > 0 {
+			o.Status = "ok"
+			o.Detail = "with helper functions inlined into their caller the rule runs to completion without this finding (first view: " + o.Detail + ")"
+		}
+	}
+	r.Count("second_view_runs", 1)
 }
